@@ -588,3 +588,89 @@ func VerifC18LivingSource(h *verifh.H) {
 	}
 	h.Observe("emitted", vJoinS(emitted))
 }
+
+// VerifC18WriteDuringRun: a MultiSource job with TWO dependency datasets. While
+// a run is delivering the batch caused by a change in the first dependency, a
+// client writes to the second dependency dataset — a new entity linked to a
+// main entity that is otherwise untouched. Whatever the run made of that write,
+// by the time the job has caught up the main entity it points to has been
+// emitted after the write: a dependency token never moves past a change whose
+// joins were evaluated as of an instant before it.
+func VerifC18WriteDuringRun(h *verifh.H) {
+	hub := server.VerifNewHub(h)
+	M, _ := hub.Dsm.CreateDataset("M", nil)
+	D1, _ := hub.Dsm.CreateDataset("D1", nil)
+	D2, _ := hub.Dsm.CreateDataset("D2", nil)
+	inverse := h.Choice("inverse", 2) == 1 // true: m -p1-> d; false: d -p1-> m
+	mk := func(id, tag, ref string) *server.Entity {
+		e := server.NewEntity(id, 0)
+		e.Properties["ns0:tag"] = tag
+		if ref != "" {
+			e.References["ns0:p1"] = ref
+		}
+		return e
+	}
+	// m1 is joined to a (in D1), m2 will be joined to b (in D2)
+	if inverse {
+		h.Assert(M.StoreEntities([]*server.Entity{mk("ns0:m1", "t0", "ns0:a"), mk("ns0:m2", "t0", "ns0:b")}) == nil, "write M")
+		h.Assert(D1.StoreEntities([]*server.Entity{mk("ns0:a", "t0", "")}) == nil, "write D1")
+	} else {
+		h.Assert(M.StoreEntities([]*server.Entity{mk("ns0:m1", "t0", ""), mk("ns0:m2", "t0", "")}) == nil, "write M")
+		h.Assert(D1.StoreEntities([]*server.Entity{mk("ns0:a", "t0", "ns0:m1")}) == nil, "write D1")
+	}
+	ms := &source.MultiSource{DatasetName: "M", Store: hub.Store, DatasetManager: hub.Dsm, Logger: hub.Env.Logger}
+	join := []source.Join{{Dataset: "M", Predicate: "ns0:p1", Inverse: inverse}}
+	first, second := "D1", "D2"
+	if h.Choice("order", 2) == 1 {
+		first, second = "D2", "D1"
+	}
+	ms.Dependencies = []source.Dependency{{Dataset: first, Joins: join}, {Dataset: second, Joins: join}}
+	sink := &vSink{failBatch: -1, failing: map[string]bool{}}
+	pl := &IncrementalPipeline{PipelineSpec{source: ms, sink: sink, batchSize: 2}}
+	j := &job{id: "ms-job", title: "ms-job", pipeline: pl, runner: vRunner(hub, 1, 1)}
+	var afterWrite []string
+	written := false
+	runToFixpoint := func() {
+		last := ""
+		for r := 0; r < 7; r++ {
+			n0 := len(sink.delivered)
+			_, err := pl.sync(j, context.Background())
+			h.Assert(err == nil, "run succeeds")
+			if written {
+				for _, e := range sink.delivered[n0:] {
+					afterWrite = append(afterWrite, e.ID)
+				}
+			}
+			st := &SyncJobState{}
+			_ = hub.Store.GetObject(server.JobDataIndex, "ms-job", st)
+			if st.ContinuationToken == last {
+				break
+			}
+			last = st.ContinuationToken
+		}
+	}
+	runToFixpoint() // initial load
+	// a changes (so the D1 dependency delivers m1); while that batch is being delivered b is written to D2
+	if inverse {
+		h.Assert(D1.StoreEntities([]*server.Entity{mk("ns0:a", "t1", "")}) == nil, "change D1")
+	} else {
+		h.Assert(D1.StoreEntities([]*server.Entity{mk("ns0:a", "t1", "ns0:m1")}) == nil, "change D1")
+	}
+	sink.killAt = sink.calls + 1
+	sink.kill = func() {
+		if written {
+			return
+		}
+		written = true
+		ref := "ns0:m2"
+		if inverse {
+			ref = ""
+		}
+		h.Assert(D2.StoreEntities([]*server.Entity{mk("ns0:b", "new", ref)}) == nil, "write D2 during the run")
+	}
+	runToFixpoint()
+	h.Assert(written, "the write happened during a run")
+	// entities delivered by the very call that triggered the write do not count as "after" it
+	h.Assert(vContains(afterWrite, "ns0:m2"), "a main entity joined to a dependency entity written during a run is emitted by the time the job has caught up :: after the write="+vJoinS(afterWrite))
+	h.Observe("after", vJoinS(afterWrite))
+}
